@@ -153,11 +153,13 @@ fn strings_of(t: &JT, out: &mut Vec<String>) {
 fn yaml11_safe(t: &JT) -> bool {
     let mut ss = Vec::new();
     strings_of(t, &mut ss);
-    // YAML 1.1 (PyYAML) treats U+0085, U+2028 and U+2029 as line breaks, YAML 1.2 does not: those
-    // are the only characters on which the two versions read a quoted scalar differently.
+    // YAML 1.1 (PyYAML, libyaml) treats U+0085, U+2028 and U+2029 as line breaks, YAML 1.2 does not.
+    // The emitter writes documents without a %YAML directive, so both kinds of parser will read
+    // them: these characters have to be escaped too (only strings with a real line break stay
+    // excluded: they are block scalars).
     // (Characters that neither version allows unescaped - C0/C1 controls, DEL, U+FFFE, U+FFFF -
     // are NOT excluded: the emitter has to escape them.)
-    ss.iter().all(|s| !s.chars().any(|c| c == '\n' || c == '\u{2028}' || c == '\u{2029}' || c == '\u{85}'))
+    ss.iter().all(|s| !s.chars().any(|c| c == '\n'))
 }
 
 struct Pending {
